@@ -17,8 +17,10 @@ FORMULAS = {
     "C07": ["C07_Range"],
 }
 SCOPES = {
-    "quick": {"V": 3, "KeysS": ["k1", "k2", "k3"], "KeysR": ["k1"]},
-    "thorough": {"V": 5, "KeysS": ["k1", "k2", "k3"], "KeysR": ["k1"]},
+    "quick": [{"V": 3, "KeysS": ["k1", "k2", "k3"], "KeysR": ["k1"]}],
+    # the property's range 0..7 is reached with two sender keys and key-less receivers
+    "thorough": [{"V": 5, "KeysS": ["k1", "k2", "k3"], "KeysR": ["k1"]},
+                 {"V": 7, "KeysS": ["k1", "k2"], "KeysR": []}],
 }
 
 
@@ -26,13 +28,13 @@ def tmp(n):
     return os.path.join(vlib.WORK, "tmp", n)
 
 
-def model(tier):
-    sc = SCOPES[tier]
+def model(tier, si=0):
+    sc = SCOPES[tier][si]
     consts = {"V": sc["V"], "KeysS": vlib.tla_set(sc["KeysS"]), "KeysR": vlib.tla_set(sc["KeysR"])}
-    cfgp = vlib.write_cfg(tmp(f"agreement_{tier}.cfg"), "Spec", consts,
+    cfgp = vlib.write_cfg(tmp(f"agreement_{tier}_{si}.cfg"), "Spec", consts,
                           invariants=["C14_Agreement", "C04_Pairs", "C20_Pairs", "C07_Range"],
                           action_constraint="EmitEdge")
-    m = vlib.cached_model_run("agreement_" + tier, "Agreement.tla", cfgp, FILES[:2], workers=6,
+    m = vlib.cached_model_run(f"agreement_{tier}_{si}", "Agreement.tla", cfgp, FILES[:2], workers=6,
                               timeout=3400, heap="12g")
     if not m["ok"]:
         raise vlib.ToolError("Agreement model: formula fails on the MODEL: " + "; ".join(m["errors"][:2]))
@@ -83,24 +85,30 @@ def strip_none(v):
 
 
 def pairs_stage(res, prop, tier):
-    """Runs the pair enumeration for `prop`; adds violations to res; returns coverage dict."""
-    m, consts = model(tier)
-    outs, fed = vlib.pipe_edges_to(m["edges_file"], [vlib.harness_bin("agreement"), "12"], procs=6)
-    summ = [o for o in outs if o.get("summary")]
-    mism = [strip_none(o) for o in outs if o.get("mismatch")]
-    cases = sum(s["cases"] for s in summ)
-    nbad = sum(s["mismatches"] for s in summ)
-    v = judge(mism, consts, FORMULAS[prop], f"{prop}_{tier}")
-    for rec, formula in v:
-        res.violation({"kind": "agreement-case", "s": rec["s"], "r": rec["r"], "b": rec["b"],
-                       "expect": rec["expect"], "observed": rec["observed"], "formula": formula,
-                       "tier": tier},
-                      f"{formula} fails on a real sender/receiver pair")
-    return {"pair_states": m["distinct"], "pair_transitions": m["generated"], "pairs_replayed": cases,
-            "pairs_nontrivial": sum(s["nontrivial"] for s in summ), "pairs_mismatching": nbad,
-            "pairs_install_fail": sum(s["install_fail"] for s in summ),
-            "pair_scope": SCOPES[tier], "pair_model_cached": m.get("cached"),
-            "pair_sample": vlib.sample_edges(m["edges_file"], 1)}
+    """Runs the pair enumeration for `prop` over every scope of the tier; adds violations to res;
+    returns a coverage dict."""
+    tot = {"pair_states": 0, "pair_transitions": 0, "pairs_replayed": 0, "pairs_nontrivial": 0,
+           "pairs_mismatching": 0, "pairs_install_fail": 0, "pair_scopes": SCOPES[tier], "pair_sample": []}
+    for si in range(len(SCOPES[tier])):
+        m, consts = model(tier, si)
+        outs, fed = vlib.pipe_edges_to(m["edges_file"], [vlib.harness_bin("agreement"), "12"], procs=6)
+        summ = [o for o in outs if o.get("summary")]
+        mism = [strip_none(o) for o in outs if o.get("mismatch")]
+        v = judge(mism, consts, FORMULAS[prop], f"{prop}_{tier}_{si}")
+        for rec, formula in v:
+            res.violation({"kind": "agreement-case", "s": rec["s"], "r": rec["r"], "b": rec["b"],
+                           "expect": rec["expect"], "observed": rec["observed"], "formula": formula,
+                           "tier": tier, "scope": si},
+                          f"{formula} fails on a real sender/receiver pair")
+        tot["pair_states"] += m["distinct"]
+        tot["pair_transitions"] += m["generated"]
+        tot["pairs_replayed"] += sum(s["cases"] for s in summ)
+        tot["pairs_nontrivial"] += sum(s["nontrivial"] for s in summ)
+        tot["pairs_mismatching"] += sum(s["mismatches"] for s in summ)
+        tot["pairs_install_fail"] += sum(s["install_fail"] for s in summ)
+        if not tot["pair_sample"]:
+            tot["pair_sample"] = vlib.sample_edges(m["edges_file"], 1)
+    return tot
 
 
 def lemma():
@@ -143,7 +151,7 @@ def run(prop, tier, seed, replay=None):
                            stdout=subprocess.PIPE)
         outs = [strip_none(json.loads(l)) for l in p.stdout.splitlines() if l.strip()]
         mism = [o for o in outs if o.get("mismatch")]
-        sc = SCOPES[obj.get("tier", "quick")]
+        sc = SCOPES[obj.get("tier", "quick")][obj.get("scope", 0)]
         consts = {"V": sc["V"], "KeysS": vlib.tla_set(sc["KeysS"]), "KeysR": vlib.tla_set(sc["KeysR"])}
         for rec, formula in judge(mism, consts, FORMULAS[prop], "replay"):
             res.violation(obj, f"{formula} fails")
